@@ -92,8 +92,8 @@ func runC02() int {
 	texts := append(append([]wgen.Micro{}, wgen.Micros...), corpus()...)
 	forEachProgram(r, quickFamilies(r), texts, func(p *prog) {
 		d := 1
-		if p.Case != nil && strings.HasPrefix(p.Case.Family, "F2") && !r.Thorough() {
-			d = 0
+		if p.Case != nil && strings.HasPrefix(p.Case.Family, "F2") && !strings.HasPrefix(p.Case.Family, "F2m") && !r.Thorough() {
+			d = 0 // the large control-flow families: default options only; the reduced-alphabet trees (F2m*) get every option set
 		}
 		c02Program(r, p, d, rs)
 	})
